@@ -78,6 +78,8 @@ def features(tree):
                     f.add("dollar")
                 if v[:1] in "<%#(":
                     f.add("lead")
+                if v != v.strip():
+                    f.add("edgews")
             if k != k.lower():
                 f.add("Kcase")
         for s in n["sections"]:
@@ -162,6 +164,13 @@ def classify(text, tree):
     """Mechanism slug when the violation disappears once the trigger of a
     known mechanism is removed from the input, else None."""
     f = features(tree)
+    if "edgews" in f and "$(" in text:
+        # a value that begins or ends with white space can only come from
+        # the environment; written out literally (the reference serialiser
+        # does that) the same values, stripped, round-trip
+        bad, _ = roundtrip(render(tree))
+        if bad is None:
+            return "value-edge-whitespace-from-environment"
     if "dollar" in f:
         bad, _ = roundtrip(render(tree, fix_dollar=True))
         if bad is None:
@@ -272,6 +281,8 @@ def targeted_text(rng):
             lines.append(pre + rng.choice(["%include $(ZCV_EMPTY)",
                                            "%import $(ZCV_EMPTY)x",
                                            "k $(ZCV_EMPTY)",
+                                           "k tail $(ZCV_EMPTY)",
+                                           "k $(ZCV_PAD)",
                                            "%include f.conf",
                                            "%define a b"]))
     while stack:
@@ -281,6 +292,7 @@ def targeted_text(rng):
 
 def run_shard(ctx):
     os.environ["ZCV_EMPTY"] = ""     # set but empty (see C03)
+    os.environ["ZCV_PAD"] = " pad "
     bound = BOUND[ctx.tier]
     for s in c03.enum_lines(ctx, bound, 0):
         check_text(ctx, s, "line")
@@ -310,4 +322,6 @@ def run_shard(ctx):
 
 
 def replay(ctx, case):
+    os.environ["ZCV_EMPTY"] = ""
+    os.environ["ZCV_PAD"] = " pad "
     check_text(ctx, case["text"], case.get("family", "replay"))
